@@ -52,13 +52,14 @@ try:
             pat='^('+'|'.join(tests)+')$'
             if not pd: res[os.path.basename(demo)]={"error":"package dir not found"}; continue
             dst=os.path.join(WT,pd,os.path.basename(demo)); shutil.copy(demo,dst)
-            rc1,out1=sh(f"go test -vet=off -count=1 -timeout 10m -run '{pat}' ./{pd}",WT)
+            race='-race ' if (os.environ.get('CONFIRM_RACE') or os.path.exists(d+'/needs_race')) else ''
+            rc1,out1=sh(f"go test {race}-vet=off -count=1 -timeout 10m -run '{pat}' ./{pd}",WT)
             # remove the patch (keeps the untracked demo); never `git stash`: refs/stash is shared by all worktrees
             sh(f"git apply -R {d}/patch.diff",WT)
-            rc2,out2=sh(f"go test -vet=off -count=1 -timeout 10m -run '{pat}' ./{pd}",WT)
+            rc2,out2=sh(f"go test {race}-vet=off -count=1 -timeout 10m -run '{pat}' ./{pd}",WT)
             sh(f"git apply {d}/patch.diff",WT)
             os.remove(dst)
-            res[os.path.basename(demo)]={"package":pd,"tests":tests,"fails_with_patch":rc1!=0,"passes_without_patch":rc2==0,
+            res[os.path.basename(demo)]={"package":pd,"tests":tests,"race_detector":bool(race),"fails_with_patch":rc1!=0,"passes_without_patch":rc2==0,
                 "with_patch_tail":out1[-400:],"without_patch_tail":out2[-200:]}
         meta["demo"]=res
         meta["confirmed"]=bool(res) and all(v.get("fails_with_patch") and v.get("passes_without_patch") for v in res.values()) and meta["builds_with_patch"] and meta["touched_package_tests_pass_with_patch"]
